@@ -1056,10 +1056,34 @@ fn emit_trunc_sparse(out: &mut Out, sp: &SpItem) {
         sp.len, sp.vals.len(), bytes.len(), rle(&outcomes)), bytes.len() > 8);
 }
 
+// A writer that accepts at most `chunk` bytes per write() call (as pipes and sockets do): serializers must use
+// write_all. Every item is serialized through one; the chunk size depends on the item's size.
+struct ChunkWriter {
+    buf: Vec<u8>,
+    chunk: usize,
+}
+impl Write for ChunkWriter {
+    fn write(&mut self, data: &[u8]) -> io::Result<usize> {
+        let n = std::cmp::min(data.len(), self.chunk);
+        self.buf.extend_from_slice(&data[..n]);
+        Ok(n)
+    }
+    fn flush(&mut self) -> io::Result<()> {
+        Ok(())
+    }
+}
+
 fn serialize_item(it: &dyn Item) -> Vec<u8> {
-    let mut buf: Vec<u8> = Vec::new();
-    it.ser(&mut buf).unwrap();
-    buf
+    let chunk = match it.size_by() % 5 {
+        0 => 1,
+        1 => 7,
+        2 => 8,
+        3 => 4096,
+        _ => usize::MAX,
+    };
+    let mut w = ChunkWriter { buf: Vec::new(), chunk };
+    it.ser(&mut w).unwrap();
+    w.buf
 }
 
 // ---------------------------------------------------------------- C06
@@ -2383,7 +2407,8 @@ fn emit_supp_inner(out: &mut Out, rng: &mut Rng, bits: &[bool], subset: u64, kin
 
 fn emit_skip(out: &mut Out, elems: &[u64], what: &str) {
     let bytes = from_elems(elems);
-    let mut reader = CountingReader::new(&bytes, 0);
+    // the reader hands out the bytes in pieces of a size that depends on the stream (0 = as many as asked for)
+    let mut reader = CountingReader::new(&bytes, [0usize, 3, 8, 100, 4096][elems.len() % 5]);
     let r = catch(|| serialize::skip_option(&mut reader));
     let oc = outcome(&r);
     let pos = reader.pos;
